@@ -21,7 +21,7 @@ func fuzzFail[C any](t *testing.T, kind string, c C, err error) {
 		t.Skip("harness precondition: " + hb.msg)
 	}
 	js, _ := json.Marshal(c)
-	dir := filepath.Join(verifRoot, "replays", "C08")
+	dir := filepath.Join(envStr("VERIF_REPLAY_ROOT", filepath.Join(verifRoot, "replays")), "C08")
 	os.MkdirAll(dir, 0o755)
 	path := filepath.Join(dir, fmt.Sprintf("%s-fuzz-%016x.json", kind, fingerprint(kind, js)))
 	doc, _ := json.MarshalIndent(map[string]any{"property": "C08", "kind": kind, "case": json.RawMessage(js), "message": err.Error()}, "", " ")
